@@ -211,27 +211,36 @@ def noll_rules(chk, repo, clause):
         raise AnalysisError('zernike_index: general paths not found')
     refusal = any(p.status == 'raise' and p.exc == 'ValueError' and p.conds and p.conds[-1][0] == nf.app('lt', j, C(1)) for p in paths)
     chk.ob(clause, 'D-guard', f.key, 'indices below 1 are refused', refusal, '', f.loc())
-    ok_n = ok_r = ok_sign = True
+    ok_n = ok_sign = True
+    ok_r = True
     det_n = det_r = det_s = ''
+    by_rest = {}
     for p in rets:
         m_t, n_t = p.ret.items
         if n_t != n_ref:
             ok_n, det_n = False, f'n = {fmt(n_t)}; Noll: {fmt(n_ref)}'
         parity = [(c, pol) for c, pol, _ in p.conds if c in (nf.app('bitand', j, C(1)), nf.app('mod', j, C(2)))]
-        if len(parity) != 1 or not isinstance(m_t, Poly) or len(m_t.terms) != 1:
+        if len(parity) != 1 or not isinstance(m_t, Poly):
             ok_sign, det_s = False, 'the sign of m is not decided by the parity of j'
             continue
-        coeff = m_t.terms[0][1]
-        if (coeff == -1) != parity[0][1] or abs(coeff) != 1:
-            ok_sign, det_s = False, f'm = {fmt(m_t)[:80]} on the path where j is {"odd" if parity[0][1] else "even"}'
-        ia = [a for a, e in m_t.terms[0][0] if a[0] == 'idx']
-        if len(ia) != 1:
-            ok_r, det_r = False, 'm is not an entry of the row list'
+        rest = frozenset((nf.vkey(c), pol) for c, pol, _ in p.conds if c != parity[0][0])
+        by_rest.setdefault(rest, {})[parity[0][1]] = m_t
+        ia = [a for a in m_t.atoms(deep=False) if a[0] == 'idx']
+        if len(m_t.terms) != 1 or len(ia) != 1:
+            ok_r = None if ok_r is not False else ok_r
+            det_r = 'undecided: |m| is not read from a row list (closed form?)'
             continue
         r = ia[0][2]
         r_start = j - n_ref * (n_ref + 1) / 2 - 1
         if r not in (r_start, r_start - (n_ref + 1)):
             ok_r, det_r = False, f'row position {fmt(r)}; Noll: {fmt(r_start)} (or that minus the row length)'
+    # odd j <-> negative m: the two parity branches of every case differ exactly by the sign
+    for rest, d in by_rest.items():
+        if True in d and False in d:
+            if d[True] != -d[False] or d[True].terms[0][1] > 0:
+                ok_sign, det_s = False, f'm(odd j) = {fmt(d[True])[:80]}, m(even j) = {fmt(d[False])[:80]}'
+        else:
+            ok_sign, det_s = False, 'only one parity branch found'
     chk.ob(clause, 'N-formula', f.key, 'radial order n from the triangular numbers', ok_n, det_n, f.loc())
     chk.ob(clause, 'N-formula', f.key, 'position of j within its row', ok_r, det_r, f.loc())
     chk.ob(clause, 'D-parity', f.key, 'odd j gives the sine (negative m) term, even j the cosine term', ok_sign, det_s, f.loc())
@@ -242,7 +251,8 @@ def noll_rules(chk, repo, clause):
     for p in rets:
         lps = [lp for lp in p.state.loops if lp['func'] == f.key]
         if len(lps) != 1:
-            ok_row, det_row = False, 'row construction loop not found'
+            ok_row = None if ok_row is not False else ok_row
+            det_row = 'undecided: no row construction loop (closed form?)'
             continue
         lp = lps[0]
         par = [pol for c, pol, _ in p.conds if c == n_par]
@@ -265,7 +275,7 @@ def noll_rules(chk, repo, clause):
             last = nf.index(apps[0].target, C(-1))
             if a0 != last + 2:
                 ok_row, det_row = False, f'first appended value {fmt(a0)}; expected previous + 2'
-    ok_row = ok_row and seen_par == {True, False}
+    ok_row = (ok_row and seen_par == {True, False}) if ok_row is not None else None
     chk.ob(clause, 'N-formula', f.key, 'row of |m|: 1,1,3,3,... for odd n and 0,2,2,4,4,... for even n', ok_row, det_row, f.loc())
     chk.ob(clause, 'N-formula', f.key, 'piston: j = 1 (n = 0) gives m = 0',
            any(p.ret.items[0] == nf.ZERO and any(c == nf.app('eq', n_ref, C(0)) and pol for c, pol, _ in p.conds)
